@@ -186,6 +186,7 @@ func cmdCheck(args []string) int {
 		}
 		obls = append(obls, vr.Obls...)
 	}
+	obls = append(obls, eng.callersObligations(*prop)...)
 	tGen := time.Since(t0).Seconds() - tLoad
 	tmp, _ := os.MkdirTemp("", "verif-smt-")
 	if !*keep {
@@ -501,4 +502,85 @@ func cmdModset(args []string) int {
 		}
 	}
 	return 0
+}
+
+// callersObligations: structural "only called from" rules of the contract files for a property.
+func (eng *Engine) callersObligations(tag string) []*Obligation {
+	var out []*Obligation
+	var paths []string
+	for p := range eng.ld.pkgSpecs {
+		paths = append(paths, p)
+	}
+	sort.Strings(paths)
+	for _, p := range paths {
+		for _, rule := range eng.ld.pkgSpecs[p].Callers {
+			has := false
+			for _, t := range rule.Tags {
+				if t == tag {
+					has = true
+				}
+			}
+			if !has {
+				continue
+			}
+			var bad []string
+			n := 0
+			for _, fn := range eng.ld.repoFunctions() {
+				pos := eng.prog.Fset.Position(fn.Pos())
+				if strings.Contains(pos.Filename, "zz_verif_spec_gen") || strings.HasSuffix(pos.Filename, "_test.go") {
+					continue
+				}
+				for _, b := range fn.Blocks {
+					for _, in := range b.Instrs {
+						var cc *ssa.CallCommon
+						switch x := in.(type) {
+						case *ssa.Call:
+							cc = &x.Call
+						case *ssa.Defer:
+							cc = &x.Call
+						case *ssa.Go:
+							cc = &x.Call
+						}
+						if cc == nil {
+							continue
+						}
+						key := ""
+						if cc.IsInvoke() {
+							key = "(" + typeKey(cc.Value.Type()) + ")." + cc.Method.Name()
+						} else if callee, ok := cc.Value.(*ssa.Function); ok {
+							_, key = calleeKeyOf(callee)
+						}
+						if key == "" || !matchCallee(key, rule.Callee) {
+							continue
+						}
+						n++
+						root := fn
+						for root.Parent() != nil {
+							root = root.Parent()
+						}
+						_, ck := calleeKeyOf(root)
+						ok := false
+						for _, a := range rule.Allowed {
+							if matchCallee(ck, a) {
+								ok = true
+							}
+						}
+						if !ok {
+							bad = append(bad, ck+" at "+eng.prog.Fset.Position(in.Pos()).String())
+						}
+					}
+				}
+			}
+			o := &Obligation{Name: "callgraph#" + rule.Label, Func: "call graph of /repo", Kind: "structural", Label: rule.Label, Tags: rule.Tags,
+				Pos: fmt.Sprintf("%s:%d", rule.File, rule.Line), Structural: true, StructOK: len(bad) == 0 && n > 0,
+				Goal: fmt.Sprintf("every call of %s (%d found) is inside %v", rule.Callee, n, rule.Allowed), Guard: "true"}
+			if len(bad) > 0 {
+				o.StructMsg = "calls outside the allowed functions: " + strings.Join(bad, "; ")
+			} else if n == 0 {
+				o.StructMsg = "no call of " + rule.Callee + " found: rule out of date"
+			}
+			out = append(out, o)
+		}
+	}
+	return out
 }
